@@ -300,7 +300,7 @@ func (ts *tokenScanner) Cur() Token {
 		tok.Type = IDENT
 		// strip quotes
 		tok.Text = ts.s.TokenText()
-		tok.Text = tok.Text[1 : len(tok.Text)-1]
+		tok.Text = strings.TrimSuffix(strings.TrimPrefix(tok.Text, "\""), "\"")
 	default:
 		tok.Text = ts.s.TokenText()
 		if kw, isKw := keywords[strings.ToUpper(ts.s.TokenText())]; isKw {
@@ -320,8 +320,9 @@ func (ts *tokenScanner) Cur() Token {
 		} else {
 			tok.Type = STR
 			if ts.cur == String {
-				// strip quotes
-				tok.Text = tok.Text[1 : len(tok.Text)-1]
+				// strip quotes (the closing one is missing if the literal is
+				// not terminated)
+				tok.Text = strings.TrimSuffix(strings.TrimPrefix(tok.Text, "'"), "'")
 			}
 		}
 	}
